@@ -22,9 +22,11 @@ def handleIns (st : St) (op : String) (j : Json) : Option (D (St × Json)) :=
     let d ← node (← field j "doc")
     let k ← str (← field j "k")
     let p ← nat (← field j "p")
-    let boundary := dropGuard d p
+    let boundary := match d.resolve p with
+      | some rp => rp.textOffset == 0
+      | none => true
     match k with
-    -- `insertPoint_insert_applies`: guard `insertGuard` (child boundary ∧ the parent allows the node's marks), `TextStable`;
+    -- `insertPoint_insert_applies`: guard `insertGuard` (`insideTextGuard` ∧ the parent allows the node's marks), `TextStable`;
     -- `trivial`: the model's `fits_trivially(p, p, Slice([n], 0, 0))`
     | "insert" =>
       let n ← node (← field j "node")
@@ -33,7 +35,8 @@ def handleIns (st : St) (op : String) (j : Json) : Option (D (St × Json)) :=
         | none => true
       let trivial := fitsTriviallyO S d p p ⟨[n], 0, 0⟩ == some true
       return (st, Json.mkObj [("ok", Json.bool (insertGuard S d p n && textStableC S)),
-        ("boundary", Json.bool boundary), ("marks", Json.bool marks), ("trivial", Json.bool trivial)])
+        ("boundary", Json.bool boundary), ("inside", Json.bool (insideTextGuard S d p [n])), ("marks", Json.bool marks),
+        ("trivial", Json.bool trivial)])
     -- `dropPoint_drop_applies_closed`: closed slice, answered by the first pass, `dropGuard`, `TextStable`
     | "drop" =>
       let sl ← slice (← field j "slice")
@@ -42,8 +45,9 @@ def handleIns (st : St) (op : String) (j : Json) : Option (D (St × Json)) :=
       let closed := sl.openStart == 0 && sl.openEnd == 0
       let trivial := fitsTriviallyO S d p p sl == some true
       return (st, Json.mkObj [("ok", Json.bool (closed && pass1 == some (some p) && fsize sl.content != 0 &&
-          boundary && textStableC S)),
-        ("boundary", Json.bool boundary), ("pass1", eOO pass1), ("trivial", Json.bool trivial)])
+          dropGuard S d p sl.content && textStableC S)),
+        ("boundary", Json.bool boundary), ("inside", Json.bool (insideTextGuard S d p sl.content)), ("pass1", eOO pass1),
+        ("trivial", Json.bool trivial)])
     -- `joinPoint_canJoin` + `canJoin_join_applies`: `can_join` at the join point, `joinGuard`, `TextStable`
     | "join" =>
       return (st, Json.mkObj [("ok", Json.bool (joinGuard S d p && textStableC S)),
